@@ -454,7 +454,7 @@ theorem topDone_eof : topDone.eof = (topDone, .end_) := by
 
 /-- a text that is exactly one literal token is parsed to the payload of that literal -/
 theorem marshal_tok (fo : FloatOracle) (w : Bytes) (hw : IsTok w) (tag : Byte) (v : Lit)
-    (hp : parseLiteral fo w = .ok (tag, some v)) : marshal fo w = .ok (litPayload v) := by
+    (hp : parseLiteral fo w = .ok (tag, some v)) (hok : litOk v = true) : marshal fo w = .ok (litPayload v) := by
   unfold marshal marshalWith
   dsimp only
   have hfuel : parseFuel w = (parseFuel w - 1) + 1 := by unfold parseFuel; omega
@@ -470,6 +470,7 @@ theorem marshal_tok (fo : FloatOracle) (w : Bytes) (hw : IsTok w) (tag : Byte) (
   simp only [show (Op.end_ == Op.error) = false by decide, Bool.false_eq_true, if_false]
   rw [hp]
   dsimp only
+  simp only [hok, Bool.not_true, Bool.false_eq_true, if_false]
   -- the trailing `scanWhile(scanEnd)`
   have e3 : scanWhile .end_ (DState.mk w (w.length + 1) .end_ topDone) =
       DState.mk w (w.length + 1) .end_ topDone := by
